@@ -331,14 +331,14 @@ def gen_lemma(l: Lemma, prop: str, bounded=None) -> FunctionReport:
 
 
 # ---------------------------------------------------------------------------------------------- solving
-def _z3_check(ob, timeout_ms, seed):
+def _z3_check(ob, timeout_ms, seed, bounded=False):
     from .engine import text_literal_axioms
     s = z3.Solver()
     s.set("timeout", timeout_ms)
     if seed:
         s.set("random_seed", seed)
     s.add(*ob.hyps)
-    s.add(*text_literal_axioms())
+    s.add(*text_literal_axioms(bounded))
     s.add(z3.Not(ob.goal))
     return s, s.check()
 
@@ -350,7 +350,7 @@ def solve_obligation(ob: Obligation, timeout_ms=10000, use_cli=True, bounded=Fal
     if ob.kind == "vacuity":
         return ob
     t0 = time.time()
-    s, r = _z3_check(ob, timeout_ms, 0)
+    s, r = _z3_check(ob, timeout_ms, 0, bounded)
     if r != z3.unsat and not bounded:
         # one retry with another seed and a longer budget (verdicts must not flip on a loaded machine)
         s, r = _z3_check(ob, timeout_ms * 3, 7)
